@@ -1145,6 +1145,26 @@ impl<'a> LL1Validator {
                 }
             }
         }
+        // operands of recursive branches whose follow is governed by the binding powers
+        let mut governed = FxHashSet::default();
+        for recursive in sema.recursive.values() {
+            for branch in recursive.branches() {
+                let (Regex::Concat(concat), indices) = (match branch {
+                    Recursion::Left(regex, left) => (*regex, [Some(*left), None]),
+                    Recursion::Right(regex, right) => (*regex, [None, Some(*right)]),
+                    Recursion::LeftRight(regex, left, right) => {
+                        (*regex, [Some(*left), Some(*right)])
+                    }
+                }) else {
+                    continue;
+                };
+                for index in indices.into_iter().flatten() {
+                    if let Some(op) = concat.operands(cst).nth(index) {
+                        governed.insert(op.syntax());
+                    }
+                }
+            }
+        }
         // Iterates until there are no more changes in the follow sets
         let mut change = true;
         while change {
@@ -1152,7 +1172,7 @@ impl<'a> LL1Validator {
             for rule in file.rule_decls(cst) {
                 if let Some(regex) = rule.regex(cst) {
                     sema.follow_sets.entry(regex.syntax()).or_default();
-                    Self::calc_follow_regex(cst, sema, regex, regex, &mut change);
+                    Self::calc_follow_regex(cst, sema, regex, regex, &governed, &mut change);
                 }
             }
         }
@@ -1163,6 +1183,7 @@ impl<'a> LL1Validator {
         sema: &mut SemanticData<'a>,
         regex: Regex,
         rule_regex: Regex,
+        governed: &FxHashSet<NodeRef>,
         change: &mut bool,
     ) {
         match regex {
@@ -1182,7 +1203,10 @@ impl<'a> LL1Validator {
                         .left_rec_local_follow_sets
                         .entry(name_rule_regex.syntax())
                         .or_default();
-                    if rule_regex != name_rule_regex {
+                    // a reference inside the rule itself also counts, unless it is an operand
+                    // whose follow is governed by the binding powers (e.g. the middle `e` in
+                    // `e: e '?' e ':' e`)
+                    if rule_regex != name_rule_regex || !governed.contains(&name.syntax()) {
                         left_rec_local_follow.extend(follow.clone());
                     }
                     sema.follow_sets
@@ -1206,7 +1230,7 @@ impl<'a> LL1Validator {
                     } else {
                         follow.clone_from(op_first);
                     }
-                    Self::calc_follow_regex(cst, sema, op, rule_regex, change);
+                    Self::calc_follow_regex(cst, sema, op, rule_regex, governed, change);
                 }
             }
             Regex::OrderedChoice(choice) => {
@@ -1216,7 +1240,7 @@ impl<'a> LL1Validator {
                         .entry(op.syntax())
                         .or_default()
                         .extend(follow.clone());
-                    Self::calc_follow_regex(cst, sema, op, rule_regex, change);
+                    Self::calc_follow_regex(cst, sema, op, rule_regex, governed, change);
                 }
             }
             Regex::Alternation(alt) => {
@@ -1226,7 +1250,7 @@ impl<'a> LL1Validator {
                         .entry(op.syntax())
                         .or_default()
                         .extend(follow.clone());
-                    Self::calc_follow_regex(cst, sema, op, rule_regex, change);
+                    Self::calc_follow_regex(cst, sema, op, rule_regex, governed, change);
                 }
             }
             Regex::Star(star) => {
@@ -1237,7 +1261,7 @@ impl<'a> LL1Validator {
                     op_follow.extend(op_first.clone());
                     op_follow.remove(&TokenName::EPSILON);
                     op_follow.extend(follow);
-                    Self::calc_follow_regex(cst, sema, op, rule_regex, change);
+                    Self::calc_follow_regex(cst, sema, op, rule_regex, governed, change);
                 }
             }
             Regex::Plus(plus) => {
@@ -1247,7 +1271,7 @@ impl<'a> LL1Validator {
                     let op_follow = sema.follow_sets.entry(op.syntax()).or_default();
                     op_follow.extend(first.clone());
                     op_follow.extend(follow);
-                    Self::calc_follow_regex(cst, sema, op, rule_regex, change);
+                    Self::calc_follow_regex(cst, sema, op, rule_regex, governed, change);
                 }
             }
             Regex::Optional(opt) => {
@@ -1257,7 +1281,7 @@ impl<'a> LL1Validator {
                         .entry(op.syntax())
                         .or_default()
                         .extend(follow);
-                    Self::calc_follow_regex(cst, sema, op, rule_regex, change);
+                    Self::calc_follow_regex(cst, sema, op, rule_regex, governed, change);
                 }
             }
             Regex::Paren(paren) => {
@@ -1267,7 +1291,7 @@ impl<'a> LL1Validator {
                         .entry(inner.syntax())
                         .or_default()
                         .extend(follow);
-                    Self::calc_follow_regex(cst, sema, inner, rule_regex, change);
+                    Self::calc_follow_regex(cst, sema, inner, rule_regex, governed, change);
                 }
             }
             Regex::Symbol(_)
